@@ -2,7 +2,6 @@
 
 import cvxpy
 import numpy as np
-import scipy
 
 from toqito.matrix_props import is_density
 
@@ -49,8 +48,8 @@ def fidelity(rho: np.ndarray, sigma: np.ndarray) -> float:
     ...      [1, 0, 0, 1]]
     ... )
     >>> sigma = rho
-    >>> fidelity(rho, sigma)
-    np.float64(1.0000000000000002)
+    >>> np.around(fidelity(rho, sigma), decimals=2)
+    np.float64(1.0)
 
     References
     ==========
@@ -82,6 +81,15 @@ def fidelity(rho: np.ndarray, sigma: np.ndarray) -> float:
         raise ValueError("Fidelity is only defined for density operators.")
 
     # If `rho` or `sigma` are *not* cvxpy variables, compute fidelity normally, since this is much faster.
-    sq_rho = scipy.linalg.sqrtm(rho)
-    sq_fid = scipy.linalg.sqrtm(sq_rho @ sigma @ sq_rho)
+    # Both square roots are of positive semidefinite matrices, so they are taken through the eigendecomposition
+    # (`scipy.linalg.sqrtm` can return NaN for singular matrices, e.g. real rank-one states).
+    sq_rho = _sqrt_psd(rho)
+    sq_fid = _sqrt_psd(sq_rho @ sigma @ sq_rho)
     return np.real(np.trace(sq_fid))
+
+
+def _sqrt_psd(mat: np.ndarray) -> np.ndarray:
+    """Square root of a (numerically) positive semidefinite matrix via its eigendecomposition."""
+    mat = np.asarray(mat)
+    eig_vals, eig_vecs = np.linalg.eigh((mat + mat.conj().T) / 2)
+    return (eig_vecs * np.sqrt(np.clip(eig_vals, 0, None))) @ eig_vecs.conj().T
